@@ -1,7 +1,132 @@
-From Coq Require Import Reals List Arith.
-From OSU.Lib Require Import SrcAuxDefs.
+(* C09  Source terms, roughness and stress under joint rotation of spectrum and wind by whole bins,
+   and under mirroring.  Only statements; every proof is [exact lemma].
+   Models: OSU.Model.SourceTerms, OSU.Model.Stress.
+
+   Vocabulary (definitions in Proofs/Stress.v, Lib/SrcAuxRot.v, Lib/SrcAuxDefs.v):
+     uniform_dirs g th0 ds   theta_j = th0 + j * 2 pi / N (radians) and every direction bin is ds degrees wide
+     well_shaped g E         E has nfreq g rows of ndir g entries
+     rot_field k E           E'[i][j] = E[i][(j - k) mod N]      (spectrum turned by k bins)
+     rot_wind w k N          wind direction + k * 360 / N degrees
+     mir_field E, mir_wind w E'[i][j] = E[i][(N - j) mod N], wind direction negated
+     ridx N j k = (j + N - k) mod N,  midx N j = (N - j) mod N
+     shifted nf N k S' S     S'[i][j] = S[i][ridx N j k] for i < nf, j < N;   mirrored likewise with midx
+     rotate2 a (e, n)        (cos a * e - sin a * n, sin a * e + cos a * n)
+     rot_angle k N           k * 2 pi / N  *)
+From Coq Require Import Reals List Arith Lra.
+From OSU.Lib Require Import SrcAuxDefs SrcAuxRot.
 From OSU.Model Require Import SourceTerms Stress.
 From OSU.Proofs Require Import SourceTerms Stress.
+Import ListNotations.
 Open Scope R_scope.
-Theorem tail_mag_def : forall t, fst (tail_stress_mag_dir t) = sqrt (snd t ^ 2 + fst t ^ 2).
-Proof. exact tail_mag_def. Qed.
+
+(* ---------------- spectral wind input: shifts by k bins / is mirrored ---------------- *)
+Theorem st4_input_rot : forall p w depth z0 g E th0 ds k,
+  uniform_dirs g th0 ds -> (k < ndir g)%nat -> well_shaped g E ->
+  forall i j, (i < nfreq g)%nat -> (j < ndir g)%nat ->
+  fnth (st4_input p (rot_wind w k (ndir g)) depth z0 g (rot_field k E)) i j
+  = fnth (st4_input p w depth z0 g E) i (ridx (ndir g) j k).
+Proof. exact st4_input_rot. Qed.
+
+Theorem st4_input_mirror : forall p w depth z0 g E ds,
+  uniform_dirs g 0 ds -> well_shaped g E ->
+  forall i j, (i < nfreq g)%nat -> (j < ndir g)%nat ->
+  fnth (st4_input p (mir_wind w) depth z0 g (mir_field E)) i j
+  = fnth (st4_input p w depth z0 g E) i (midx (ndir g) j).
+Proof. exact st4_input_mirror. Qed.
+
+(* ---------------- bulk rates: invariant for any field that shifts / mirrors ---------------- *)
+Theorem bulk_rot_invariant : forall g th0 ds k S' S,
+  uniform_dirs g th0 ds -> (k < ndir g)%nat ->
+  (forall i j, (i < nfreq g)%nat -> (j < ndir g)%nat -> fnth S' i j = fnth S i (ridx (ndir g) j k)) ->
+  bulk g S' = bulk g S.
+Proof. exact bulk_shift_invariant. Qed.
+
+Theorem bulk_mirror_invariant : forall g ds S' S,
+  uniform_dirs g 0 ds -> (0 < ndir g)%nat ->
+  (forall i j, (i < nfreq g)%nat -> (j < ndir g)%nat -> fnth S' i j = fnth S i (midx (ndir g) j)) ->
+  bulk g S' = bulk g S.
+Proof. exact bulk_mirror_invariant. Qed.
+
+Theorem st4_input_bulk_rot : forall p w depth z0 g E th0 ds k,
+  uniform_dirs g th0 ds -> (k < ndir g)%nat -> well_shaped g E ->
+  bulk g (st4_input p (rot_wind w k (ndir g)) depth z0 g (rot_field k E))
+  = bulk g (st4_input p w depth z0 g E).
+Proof. exact st4_input_bulk_rot. Qed.
+
+Theorem st4_input_bulk_mirror : forall p w depth z0 g E ds,
+  uniform_dirs g 0 ds -> (0 < ndir g)%nat -> well_shaped g E ->
+  bulk g (st4_input p (mir_wind w) depth z0 g (mir_field E)) = bulk g (st4_input p w depth z0 g E).
+Proof. exact st4_input_bulk_mirror. Qed.
+
+(* ---------------- stress: the vector rotates by alpha = k * 2 pi / N ---------------- *)
+(* resolved part, for any input field that shifts by k bins *)
+Theorem resolved_stress_rot : forall p g ks th0 ds k S' S,
+  uniform_dirs g th0 ds -> (k < ndir g)%nat ->
+  (forall i j, (i < nfreq g)%nat -> (j < ndir g)%nat -> fnth S' i j = fnth S i (ridx (ndir g) j k)) ->
+  resolved_stress p g ks S' = rotate2 (rot_angle k (ndir g)) (resolved_stress p g ks S).
+Proof. exact resolved_stress_rot. Qed.
+
+(* WAM tail stress (directional integrals over the last frequency bin + Charnock background) *)
+Theorem tail_stress_rot : forall p w z0 g x0 E th0 ds k,
+  uniform_dirs g th0 ds -> (k < ndir g)%nat -> well_shaped g E ->
+  tail_stress_wam p (rot_wind w k (ndir g)) z0 g x0 (rot_field k E)
+  = rotate2 (rot_angle k (ndir g)) (tail_stress_wam p w z0 g x0 E).
+Proof. exact tail_stress_rot. Qed.
+
+(* total stress vector = resolved + tail + viscous *)
+Theorem stress_vector_rot : forall p w depth z0 g x0 E th0 ds k,
+  uniform_dirs g th0 ds -> (k < ndir g)%nat -> well_shaped g E ->
+  total_stress_vec p (rot_wind w k (ndir g)) depth z0 g x0 (rot_field k E)
+  = rotate2 (rot_angle k (ndir g)) (total_stress_vec p w depth z0 g x0 E).
+Proof. exact total_stress_vec_rot. Qed.
+
+(* magnitude invariant, direction + k*360/N modulo 360 (vector form), direction stays in [0,360) *)
+Theorem stress_magnitude_direction_rot : forall p w depth z0 g x0 E th0 ds k,
+  uniform_dirs g th0 ds -> (k < ndir g)%nat -> well_shaped g E ->
+  friction_velocity p w z0 <> 0 ->
+  let v := total_stress_vec p w depth z0 g x0 E in
+  (fst v <> 0 \/ snd v <> 0) ->
+  exists d d',
+    total_stress_point p w depth z0 g x0 E = (sqrt (snd v ^ 2 + fst v ^ 2), Some d) /\
+    total_stress_point p (rot_wind w k (ndir g)) depth z0 g x0 (rot_field k E)
+      = (sqrt (snd v ^ 2 + fst v ^ 2), Some d') /\
+    0 <= d' < 360 /\
+    cos (d' * PI / 180) = cos ((d + INR k * (360 / INR (ndir g))) * PI / 180) /\
+    sin (d' * PI / 180) = sin ((d + INR k * (360 / INR (ndir g))) * PI / 180).
+Proof. exact total_stress_point_rot. Qed.
+
+(* the direction (degrees, mod 360) of any non-zero vector rotated by a *)
+Theorem direction_of_rotated_vector : forall a v, (fst v <> 0 \/ snd v <> 0) ->
+  let d := dir_deg (snd v) (fst v) in
+  let d' := dir_deg (snd (rotate2 a v)) (fst (rotate2 a v)) in
+  cos (d' * PI / 180) = cos (d * PI / 180 + a) /\ sin (d' * PI / 180) = sin (d * PI / 180 + a).
+Proof. exact dir_deg_rotate. Qed.
+
+(* ---------------- roughness: the implicit equation is the same function ---------------- *)
+Theorem stress_iteration_function_rot : forall p w depth g x0of E th0 ds k l,
+  uniform_dirs g th0 ds -> (k < ndir g)%nat -> well_shaped g E ->
+  stress_iteration_function p (rot_wind w k (ndir g)) depth g x0of (rot_field k E) l
+  = stress_iteration_function p w depth g x0of E l.
+Proof. exact stress_iteration_function_rot. Qed.
+
+(* hence any solver that depends on its function argument only through its values returns the same
+   roughness length for the rotated problem *)
+Theorem solver_ext : forall (solver : (R -> R) -> R) p w depth g x0of E th0 ds k,
+  uniform_dirs g th0 ds -> (k < ndir g)%nat -> well_shaped g E ->
+  (forall f f', (forall l, f l = f' l) -> solver f = solver f') ->
+  solver (stress_iteration_function p (rot_wind w k (ndir g)) depth g x0of (rot_field k E))
+  = solver (stress_iteration_function p w depth g x0of E).
+Proof. exact solver_ext. Qed.
+
+(* ---------------- the premises are satisfiable ---------------- *)
+Example uniform_grid_example :
+  let g := mkgrid [1; 2] [ang 0 2 0; ang 0 2 1] [1/10; 1/10] [180; 180] in
+  uniform_dirs g 0 180 /\ well_shaped g [[1; 2]; [3; 4]] /\ (1 < ndir g)%nat.
+Proof.
+  cbn. split; [|split].
+  - intros j Hj. unfold gth, gdth, rnth. cbn in *. destruct j as [|[|j]]; cbn; [split; reflexivity|split; reflexivity|].
+    exfalso. inversion Hj. inversion H0. inversion H2.
+  - split; [reflexivity|]. intros i Hi. cbn in *. destruct i as [|[|i]]; cbn; try reflexivity.
+    exfalso. inversion Hi. inversion H0. inversion H2.
+  - cbn. constructor.
+Qed.
